@@ -7,7 +7,7 @@ namespace C03
 open Model
 
 theorem logscale_wiring :
-    Gen.cropbuf_min_expr = "np.min(crop_bufs, axis=(-1, -2)) - 1" ∧ Gen.cropbuf_log_out = "crop_bufs" ∧
+    Gen.cropbuf_min_expr = "np.min(crop_bufs, axis=(-1, -2))" ∧ Gen.cropbuf_log_out = "crop_bufs" ∧
     Gen.log_out = "out" ∧ Gen.log_dtype = "np.result_type(data.dtype, np.float32)" := ⟨rfl, rfl, rfl, rfl⟩
 
 /-- which transforms and which shift build the correlation maps -/
